@@ -131,6 +131,7 @@ func init() {
 			Harness{Fn: "ZZC07Str", Quick: p("PROP", 6, "S", 2), Thorough: p("PROP", 6, "S", 3), Expect: []string{"str-ok", "witness:end"}},
 			Harness{Fn: "ZZC06Multi", Quick: p("PROP", 6, "ML", 2), Thorough: p("PROP", 6, "ML", 3), Expect: []string{"multi-ok", "witness:end"}},
 			Harness{Fn: "ZZC06Groups", Quick: p("PROP", 6), Thorough: p("PROP", 6), Expect: []string{"groups-ok", "witness:end"}},
+			Harness{Fn: "ZZC06Invalid", Quick: p("PROP", 6), Thorough: p("PROP", 6), Expect: []string{"invalid-rejected", "witness:end"}},
 		)},
 		Assumptions: []string{
 			"ZZC07Str: string literals of up to S pieces from 13 (plain, every escape sequence, non-ASCII, format and markup look-alikes) in four syntactic positions; ZZC06Multi: multi-line array/map literals of up to ML lines (element, element with comment, own-line comment, blank line; also comment-only literals) in six positions, at top level and inside a block",
